@@ -37,9 +37,11 @@ def parse_obj_data(data):
         elif toks[0] == 'f':
             faces.append([ parse_vertex(vstr) for vstr in toks[1:] ])
         elif toks[0] == 'l':
-            v1,v2 = int(toks[1])-1, int(toks[2])-1
-            e = keyify(v1,v2)
-            obj.edges.append(e)
+            # a line element is a polyline : l v1 v2 v3 ... stands for the edges (v1,v2), (v2,v3), ...
+            for i in range(1, len(toks)-1):
+                v1,v2 = int(toks[i])-1, int(toks[i+1])-1
+                e = keyify(v1,v2)
+                obj.edges.append(e)
 
     normals_attr = obj.vertices.create_attribute("normals", float, 3)
     uv_attr = obj.face_corners.create_attribute("uv_coords", float, 2)
